@@ -3,10 +3,17 @@ package validator
 import (
 	"bytes"
 	"encoding/json"
+	"fmt"
 	e "github.com/aml-org/amf-custom-validator/pkg/events"
 )
 
-func ProcessInput(jsonldText string, debug bool, receiver *chan e.Event) (any, error) {
+func ProcessInput(jsonldText string, debug bool, receiver *chan e.Event) (result any, err error) {
+	// malformed data can make the JSON-LD library or the indexing of source maps panic: report it as an error
+	defer func() {
+		if r := recover(); r != nil {
+			result, err = nil, fmt.Errorf("cannot process input data: %v", r)
+		}
+	}()
 	dispatchEvent(e.NewEvent(e.InputDataParsingStart), receiver)
 	decoder := json.NewDecoder(bytes.NewBuffer([]byte(jsonldText)))
 	decoder.UseNumber()
